@@ -166,3 +166,47 @@ def check(cx):
     cx.include(c08, {"C08.5"}, "C15.6", "shared with C08.5: every DROP that recovery replays is if_exists and a replayed DROP TABLE "
                "cascades to the table's indexes, so that the catalog after recovery holds no index without its table", floor=6,
                skip=(":guarded",))
+
+    # ---- C15.7 one catalog namespace --------------------------------------------------------------------------------
+    r7 = cx.rule("C15.7", "MPR: the statement-level CREATE executors guard the catalog store with a name check that asks the "
+                 "catalog for *any* relation of that name (tables and indexes share the name index; store_relation upserts "
+                 "it): the check dominates the store, reaches Catalog::get_relation_by_name/bind_relation and applies no "
+                 "kind filter (is_table/is_index)", floor=2)
+    STORE = {"schema::catalog::Catalog::store_relation", DDL + "::create_unique_index"}
+    LOOKUP = {"schema::catalog::Catalog::get_relation_by_name", "schema::catalog::Catalog::bind_relation"}
+    KIND = {"schema::base::Relation::is_table", "schema::base::Relation::is_index", "schema::base::Relation::kind"}
+    for name in ("execute_create_table", "execute_create_index"):
+        f = cx.guard(r7, name, p.fn, DDL + "::" + name)
+        if not f:
+            continue
+        stores = [c for c in f.calls() if c.callee in STORE]
+        checks = []
+        for c in f.calls():
+            g = p.fns.get(c.callee)
+            if g is None or g.impl_adt != "runtime::ddl::DdlExecutor" or c.callee in STORE:
+                continue
+            fam = {g.id} | set(p.closure_children.get(g.id, ()))
+            called = set()
+            for x in fam:
+                called |= {cc.callee for cc in p.fns[x].calls()}
+            if called & LOOKUP:
+                checks.append((c, bool(called & KIND)))
+        good = bool(stores) and bool(checks) and all(
+            any(f.dominates(c.bb, s_.bb) and not filt for c, filt in checks) for s_ in stores)
+        # the check's verdict must decide: a bool switch on its result dominates the store
+        if good:
+            decides = False
+            for c, filt in checks:
+                if filt:
+                    continue
+                res = c.dst[0]
+                for bi, b in enumerate(f.blocks):
+                    t = b["term"]
+                    if t["t"] == "switch" and op_local(t["o"]) is not None and (op_local(t["o"]) == res or res in f.dep_closure(op_local(t["o"]))) \
+                            and all(f.dominates(bi, s_.bb) for s_ in stores):
+                        decides = True
+            good = decides
+        cx.verdict(good, r7, name, f.where(), "name check over the whole namespace dominates the store",
+                   "%s stores a relation without first asking whether *any* relation of that name exists (no check, or a check "
+                   "filtered by kind): creating an index named like a table re-points the name at the index and the table "
+                   "becomes unreachable" % name)
